@@ -43,8 +43,9 @@ def ledger(run, w, g):
         per_sec = {}
         per_par = {}
         per_bo = {}
-        for (s, q, price, par) in g.trades.get(di, []):
-            o, f, b = g.trade_cost(s, q, price)
+        for tr1 in g.trades.get(di, []):
+            s, q, price, par = tr1[:4]
+            o, f, b = g.trade_cost(s, q, price, tr1[4] if len(tr1) > 4 else None)
             per_sec[id(s)] = per_sec.get(id(s), 0.0) + o
             per_par[id(par)] = per_par.get(id(par), 0.0) + f
             per_bo[id(s)] = per_bo.get(id(s), 0.0) + b
@@ -54,6 +55,12 @@ def ledger(run, w, g):
                 run.check_near(s.bidoffers_paid[d], per_bo.get(id(s), 0.0), EPS_MONEY, 'bidoffer-row=trades', '%s date %d' % (s.full_name, di))
         for n in O.strategies(root):
             run.check_near(n.fees[d], per_par.get(id(n), 0.0), EPS_MONEY, 'fee-row=commission-of-trades', '%s date %d' % (n.full_name, di))
+            if w.spread_on:
+                # a strategy's bid/offer paid on a date is the sum over everything below it
+                tot = 0.0
+                for s in O.securities(n):
+                    tot = tot + per_bo.get(id(s), 0.0)
+                run.check_near(n.bidoffers_paid[d], tot, EPS_MONEY, 'strategy-bidoffer-row=sum-of-trades-below', '%s date %d' % (n.full_name, di))
 
 
 def h_ledger(run, cfg):
@@ -74,7 +81,7 @@ def h_custom(run, cfg):
     cap = run.real('cap', 10 ** 7, 2 * 10 ** 7)
     root.adjust(cap)
     root.update(w.dts[0])
-    a = root['a']
+    a = root[cfg.get('sec', 'a')]
     q1 = run.real('q1', -10 ** 4, 10 ** 4)
     p1 = run.real('p1', 50, 150) if cfg.get('symprice') else 101.25
     q2 = run.real('q2', -10 ** 4, 10 ** 4)
@@ -134,7 +141,16 @@ def plan(tier):
         for seq in itertools.product(alphabet('S1'), repeat=3):
             for cfg in _cfgs('S1', seq, 0, tier)[:1]:
                 tasks.append(dict(harness='ledger', cfg=cfg, opts=dict(max_paths=8000, timeout_ms=20000)))
+    # sequences that must always be present: same-date round trips, redundant updates between trades, custom prices on a multiplier security
+    must = [(['transact', 'a'], ['transact', 'a']), (['transact', 'b'], ['transact', 'b']), (['transact_px', 'b', 36.0], ['transact_px', 'b', 39.5]),
+            (['transact_px', 'b', 36.0], ['next']), (['close', 'b'], ['update'], ['transact', 'a']), (['transact', 'b'], ['update'], ['close', 'b']),
+            (['close', 'b'], ['update'], ['update'], ['transact', 'a'])]
+    for seq in must:
+        for fee in (['uf'], ['prop', 0.001953125]):
+            cfg = dict(shape='S1', int=0, fee=fee, spread=1, ops=[list(o) for o in seq], mult=1)
+            tasks.append(dict(harness='ledger', cfg=cfg, opts=opts))
     for fee in (['uf'], ['prop', 0.001953125]):
         for zp in (0, 1):
             tasks.append(dict(harness='custom', cfg=dict(shape='S1', int=0, fee=fee, spread=1, mult=1, zero_price=zp), opts=opts))
+            tasks.append(dict(harness='custom', cfg=dict(shape='S1', int=0, fee=fee, spread=1, mult=1, zero_price=zp, sec='b'), opts=opts))
     return tasks
